@@ -121,9 +121,43 @@ def check_one(ctx, cfg, kind, rng, drv, seed):
              branch="%s/%s/%s" % (cfg.fmt, kind, "midnight" if want[0] is not None else "no-midnight"))
 
 
+def long_pass_cases(ctx, rng):
+    """A pass of several thousand records with gaps and with two neighbouring records stored in the wrong order right at record
+    4096 (and at 2048): the missing-line list and the midnight line still describe the returned data."""
+    import io
+    import warnings
+    import numpy as np
+    from . import filegen
+    n = 4200
+    ln = np.arange(1, n + 1) + 3
+    ln[2000:] += 3                   # a gap of three lines
+    for p_ in (2047, 4095):
+        ln[p_], ln[p_ + 1] = ln[p_ + 1], ln[p_]
+    start = ydm_to_ms(2002, 187, 86400000 - 500 * 3000)       # midnight inside the pass
+    pb = filegen.PassBuilder(ctx, "klmGac", n, random.Random(repr((ctx.seed, "c18long"))), start_ms=start, line_numbers=ln)
+    r = filegen.make_reader(ctx, "klmGac", data=pb.tobytes(), name=pb.dsname)
+    with warnings.catch_warnings():
+        warnings.simplefilter("ignore")
+        r.get_lonlat()
+        t = acc.times_ms(r.get_times())
+    nums = [int(x) for x in r.scans["scan_line_number"]]
+    got = acc.meta_view(r.meta_data)
+    want = acc.meta_oracle(list(t), nums)
+    payload = {"fmt": "klmGac", "n": n, "stream": "long-pass", "swapped_at": [2047, 4095]}
+    if got != want:
+        part = [nm for nm, a, b in zip(("midnight line", "missing lines", "distance factor"), got or (None,) * 3, want) if a != b]
+        ctx.violation("klmGac pass of %d records (two neighbouring records swapped at record 2048 and at 4096): meta_data %s differ from "
+                      "what the returned times / line numbers give (%s vs %s)" % (n, part, [g if not isinstance(g, tuple) else g[:8] for g in (got or ())],
+                                                                                 [w if not isinstance(w, tuple) else w[:8] for w in want]),
+                      payload, cls="meta-long:" + "+".join(part))
+    ctx.case(("long", n), nontrivial=True, branch="long-pass")
+
+
 def run(ctx):
     rng = ctx.rng
     drv = []
+    if ctx.thorough or getattr(ctx, "escalated", False):
+        long_pass_cases(ctx, rng)
     for k in range(ctx.n(120, 3000)):
         cfg, kind = gen_config(rng, k)
         check_one(ctx, cfg, kind, rng, drv, seed=rng.randrange(1 << 30))
